@@ -7,8 +7,10 @@
 //! `err timeout-harness`.
 //!
 //! Families (key=value words, any order):
-//!  qw role=c|s kind=bi|uni|bip skip=N win=N cwin=N swin=N bufs=a.b,c,.. seed=N ids=MASK dbl=J|- dblp=J|- rd=N
+//!  qw role=c|s kind=bi|uni|bip skip=N win=N cwin=N swin=N bufs=a.b,c,.. seed=N ids=MASK dbl=J|- dblp=J|- rd=N ps=N|-
 //!     fault=none|stop:C@N|close:C@N|afin|areset:C@J|lclose:C@J
+//!     (a buffer is a DATA frame with payload chunks a.b.., or hN = HEADERS frame, tT:a.b = stream type T then a
+//!      DATA frame, yT = stream type T alone; ps = raw bytes sent afterwards with SendStreamUnframed::poll_send)
 //!  qr role=c|s kind=bi|uni|bip skip=N win=N cwin=N chunks=a,b,.. seed=N ids=MASK stop=none|C@idle|C@pend|C@pend2
 //!     fault=fin|reset:C@N|close:C@N|timeout@N|lclose:C
 //!  qa role=c|s op=accept_recv|accept_bidi|open_bidi|open_send fault=close:C|lclose:C|timeout
@@ -25,6 +27,7 @@ use std::time::Duration;
 use bytes::{Buf, Bytes};
 use h3::error::Code;
 use h3::proto::frame::Frame;
+use h3::proto::stream::StreamType;
 use h3::quic::{
     self, BidiStream as _, ConnectionErrorIncoming, OpenStreams as _, RecvStream as _, SendStream as _,
     StreamErrorIncoming,
@@ -129,6 +132,63 @@ impl PrefixCheck {
     fn show(&self) -> String {
         format!("recv={} pfx={}", self.dg.show(), if self.ok { "ok" } else { "BAD" })
     }
+}
+
+/// One buffer handed to send_data: a DATA frame (payload chunks), a HEADERS frame, a stream type followed
+/// by a DATA frame, or a stream type alone.
+enum BufSpec {
+    Data(Vec<usize>),
+    Headers(usize),
+    Typed(u64, Vec<usize>),
+    Type(u64),
+}
+impl BufSpec {
+    fn parse(x: &str) -> Self {
+        let chunks = |s: &str| -> Vec<usize> { s.split('.').map(|l| l.parse().unwrap()).filter(|l| *l > 0).collect() };
+        if let Some(r) = x.strip_prefix('h') {
+            BufSpec::Headers(r.parse().unwrap())
+        } else if let Some(r) = x.strip_prefix('y') {
+            BufSpec::Type(r.parse().unwrap())
+        } else if let Some(r) = x.strip_prefix('t') {
+            let (t, c) = r.split_once(':').expect("t<type>:<chunks>");
+            BufSpec::Typed(t.parse().unwrap(), chunks(c))
+        } else {
+            BufSpec::Data(chunks(x))
+        }
+    }
+    /// the bytes this buffer must put on the wire
+    fn wire(&self, seed: u64, j: u64) -> Vec<u8> {
+        let mut out = Vec::new();
+        let frame = |out: &mut Vec<u8>, ty: u8, total: usize| {
+            out.push(ty);
+            out.extend(varint(total as u64));
+            out.extend(gen_bytes(seed, j, 0, total));
+        };
+        match self {
+            BufSpec::Data(c) => frame(&mut out, 0, c.iter().sum()),
+            BufSpec::Headers(l) => frame(&mut out, 1, *l),
+            BufSpec::Typed(t, c) => {
+                out.extend(varint(*t));
+                frame(&mut out, 0, c.iter().sum());
+            }
+            BufSpec::Type(t) => out.extend(varint(*t)),
+        }
+        out
+    }
+}
+
+fn spec_payload(seed: u64, j: u64, chunks: &[usize]) -> ChunkBuf {
+    let mut off = 0u64;
+    ChunkBuf::new(
+        chunks
+            .iter()
+            .map(|l| {
+                let b = Bytes::from(gen_bytes(seed, j, off, *l));
+                off += *l as u64;
+                b
+            })
+            .collect(),
+    )
 }
 
 fn conn_class(e: &ConnectionErrorIncoming) -> String {
@@ -452,21 +512,22 @@ async fn run_qw(certs: &Certs, c: &Case) -> String {
     let rd = c.n("rd", 0) as usize;
     let (fname, fcode, fat) = parse_fault(&c.s("fault", "none"));
     let tc = transport(c.n("win", 1 << 20), c.n("cwin", 1 << 22), c.n("swin", 1 << 22), 0);
-    let bufs: Vec<Vec<usize>> = {
+    let ps_len = c.opt_n("ps");
+    let bufs: Vec<BufSpec> = {
         let b = c.s("bufs", "-");
         if b == "-" {
             vec![]
         } else {
-            b.split(',').map(|x| x.split('.').map(|l| l.parse().unwrap()).filter(|l| *l > 0).collect()).collect()
+            b.split(',').map(BufSpec::parse).collect()
         }
     };
     // the byte stream the peer must see when everything is sent
     let mut expected = Vec::new();
-    for (j, chunks) in bufs.iter().enumerate() {
-        let total: usize = chunks.iter().sum();
-        expected.push(0u8);
-        expected.extend(varint(total as u64));
-        expected.extend(gen_bytes(seed, j as u64, 0, total));
+    for (j, b) in bufs.iter().enumerate() {
+        expected.extend(b.wire(seed, j as u64));
+    }
+    if let (Some(n), "none") = (ps_len, fname.as_str()) {
+        expected.extend(gen_bytes(seed, 1000, 0, n as usize));
     }
 
     let pair = connect(certs, tc, &role).await;
@@ -477,7 +538,7 @@ async fn run_qw(certs: &Certs, c: &Case) -> String {
     let (done_tx, done_rx) = oneshot::channel::<()>();
     // how many bytes the peer has read (A closes locally only once nothing it wrote is still in flight)
     let (seen_tx, mut seen_rx) = tokio::sync::watch::channel::<u64>(0);
-    let wire_lens: Vec<u64> = bufs.iter().map(|c| { let t: usize = c.iter().sum(); (1 + varint(t as u64).len() + t) as u64 }).collect();
+    let wire_lens: Vec<u64> = bufs.iter().enumerate().map(|(j, b)| b.wire(seed, j as u64).len() as u64).collect();
 
     // ---- peer task: read everything, apply the fault
     let kind2 = kind.clone();
@@ -581,10 +642,17 @@ async fn run_qw(certs: &Certs, c: &Case) -> String {
         S(h3_quinn::SendStream<ChunkBuf>),
     }
     impl W {
-        fn send_data(&mut self, f: Frame<ChunkBuf>) -> Result<(), StreamErrorIncoming> {
+        fn send_data<D: Into<quic::WriteBuf<ChunkBuf>>>(&mut self, f: D) -> Result<(), StreamErrorIncoming> {
             match self {
                 W::B(s) => s.send_data(f),
                 W::S(s) => s.send_data(f),
+            }
+        }
+        fn poll_send(&mut self, cx: &mut std::task::Context<'_>, buf: &mut Bytes) -> Poll<Result<usize, StreamErrorIncoming>> {
+            use h3::quic::SendStreamUnframed;
+            match self {
+                W::B(s) => s.poll_send(cx, buf),
+                W::S(s) => s.poll_send(cx, buf),
             }
         }
         fn poll_ready(&mut self, cx: &mut std::task::Context<'_>) -> Poll<Result<(), StreamErrorIncoming>> {
@@ -642,22 +710,18 @@ async fn run_qw(certs: &Certs, c: &Case) -> String {
     }
     let mut sent = 0u64;
     if res == "ok" {
-        for (j, chunks) in bufs.iter().enumerate() {
+        for (j, spec) in bufs.iter().enumerate() {
             let j = j as u64;
             if (fname == "areset" || fname == "lclose") && sent >= fat {
                 break;
             }
             q(&w, 0, &mut ids);
-            let mut off = 0u64;
-            let payload: Vec<Bytes> = chunks
-                .iter()
-                .map(|l| {
-                    let b = Bytes::from(gen_bytes(seed, j, off, *l));
-                    off += *l as u64;
-                    b
-                })
-                .collect();
-            let r = w.send_data(Frame::Data(ChunkBuf::new(payload)));
+            let r = match spec {
+                BufSpec::Data(chunks) => w.send_data(Frame::Data(spec_payload(seed, j, chunks))),
+                BufSpec::Headers(l) => w.send_data(Frame::<ChunkBuf>::Headers(Bytes::from(gen_bytes(seed, j, 0, *l)))),
+                BufSpec::Typed(t, chunks) => w.send_data((StreamType::from_value(*t), Frame::Data(spec_payload(seed, j, chunks)))),
+                BufSpec::Type(t) => w.send_data(StreamType::from_value(*t)),
+            };
             if r.is_err() {
                 res = format!("{}@send", res_unit(&r));
                 break;
@@ -700,6 +764,27 @@ async fn run_qw(certs: &Certs, c: &Case) -> String {
         }
     }
     q(&w, 3, &mut ids);
+    let mut ps_out = String::from("-");
+    if let (Some(n), "none", "ok") = (ps_len, fname.as_str(), res.as_str()) {
+        // SendStreamUnframed::poll_send: raw bytes, one poll_write per call
+        let mut raw = Bytes::from(gen_bytes(seed, 1000, 0, n as usize));
+        ps_out = "ok".into();
+        while raw.has_remaining() {
+            let before = raw.remaining();
+            match poll_fn(|cx| w.poll_send(cx, &mut raw)).await {
+                Ok(k) => {
+                    if before - raw.remaining() != k {
+                        ps_out = "BADCOUNT".into();
+                        break;
+                    }
+                }
+                Err(e) => {
+                    ps_out = format!("err:{}", stream_class(&e));
+                    break;
+                }
+            }
+        }
+    }
     match fname.as_str() {
         "none" => {
             if res == "ok" {
@@ -742,7 +827,7 @@ async fn run_qw(certs: &Certs, c: &Case) -> String {
     let _ = done_tx.send(());
     let (recv, end, pid) = peer.await.expect("peer task");
     let mut out = format!(
-        "ok res={} {} end={} ids={} pid={} rid={} dbl={} dblp={}",
+        "ok res={} {} end={} ids={} pid={} rid={} dbl={} dblp={} ps={}",
         res,
         recv,
         end,
@@ -750,7 +835,8 @@ async fn run_qw(certs: &Certs, c: &Case) -> String {
         if pid == u64::MAX { "-".to_string() } else { pid.to_string() },
         rid,
         dbl_out,
-        dblp_out
+        dblp_out,
+        ps_out
     );
     if let Some(f) = fin2 {
         out.push_str(&format!(" fin2={}", f));
